@@ -423,8 +423,11 @@ func (fr *frame) execSlice(i *ssa.Slice, st *State, reach string) {
 	xv := fr.val(i.X)
 	if cell, ok := xv.(*ArrCell); ok {
 		if i.Low == nil && i.High == nil {
-			fr.vals[i] = &VarArgSlice{Elems: cell.Elems}
-			// keep aliasing: later stores into the cell are visible (varargs are filled before slicing)
+			if isByte(cell.ElemT) && len(cell.Elems) == 0 {
+				fr.vals[i] = Term{"\"\"", SString}
+				return
+			}
+			// varargs / composite literal: the cell is filled before it is sliced
 			fr.vals[i] = &VarArgSlice{Elems: cell.Elems}
 			return
 		}
@@ -493,7 +496,16 @@ func (fr *frame) execUnOp(i *ssa.UnOp, st *State, reach string) {
 			fr.vals[i] = Term{fmt.Sprintf("(select (sarr %s) (+ (soff %s) %s))", pt.Slice.S, pt.Slice.S, pt.Idx.S), sortArgs(pt.Slice.Sort)[0]}
 		case Term:
 			elemT := ptrElem(i.X.Type())
-			if _, isGlobal := i.X.(*ssa.Global); !isGlobal {
+			if g, isGlobal := i.X.(*ssa.Global); isGlobal {
+				if fc.isStable(g) {
+					v := fc.globalVal(g)
+					if v.Sort == SInt && isRefType(elemT) {
+						fc.assumeAllocated(st, v)
+					}
+					fr.vals[i] = v
+					return
+				}
+			} else {
 				fr.safety("nil", not(eq(pt.S, "0")), reach, i.Pos(), "nil pointer dereference")
 			}
 			fr.vals[i] = fr.loadRef(st, pt, elemT)
